@@ -12,7 +12,10 @@ package main
 //
 // Set symbols are named per store: the k-th collection registered on a store uses that store's
 // symbol `f<k>` (so different stores reuse the same names, and the two ends of a collection are
-// in general named differently).  An optional suffix
+// in general named differently).  A collection token may carry the naming variants of its two
+// ends, `<coll>.<vA><vB>` (self: `.<v>`): 0 = AddFkSetSymbol(name) (bucket named like the symbol),
+// 1 = AddFkSymbolWithKey(name, "k"+name) (another key), 2 = AddFkSymbolWithKey(name, name, "refs")
+// (under a path prefix), 3 = AddFkSymbolWithKey(name, "k"+name, "refs", "deep").  An optional suffix
 // `@<ea><eb>` makes the child store of family A / B an EXTENDED store (StoreDefinition.Extended()).
 //
 // Case line:  G <schema> <poolA> <poolB> <tx> <tx> ...      ("-" = no collection)
@@ -76,12 +79,45 @@ type c05gColl struct {
 	rc     [2]boltz.RefCountedLinkCollection
 	stores [2]int // store index (0 A, 1 B, 2 a, 3 b) of side A / side B; s: both the same
 	names  [2]string // name of the set symbol on the side-A / side-B store
+	paths  [2]string // where its bucket lives inside the ROOT entity bucket ("ext/" first for a child store)
 }
 
 type c05gSchema struct {
 	stores [4]*boltz.BaseStore[*c05gEnt] // A, B, a, b
 	colls  []*c05gColl
 	byName [4]map[string]int // per store: symbol name -> collection index
+	byPath [2]map[string]int // per family: bucket path inside the root entity bucket -> collection index
+	prefix [2]map[string]bool // per family: proper prefixes of those paths (intermediate buckets)
+}
+
+// c05gSymbol declares the set symbol of one collection end in the given naming variant and returns
+// it with the path of its bucket inside the entity bucket of its store
+func c05gSymbol(st, linked *boltz.BaseStore[*c05gEnt], name string, variant byte) (boltz.EntitySymbol, string) {
+	switch variant {
+	case '1':
+		return st.AddFkSymbolWithKey(name, "k"+name, linked), "k" + name
+	case '2':
+		return st.AddFkSymbolWithKey(name, name, linked, "refs"), "refs/" + name
+	case '3':
+		return st.AddFkSymbolWithKey(name, "k"+name, linked, "refs", "deep"), "refs/deep/k" + name
+	}
+	return st.AddFkSetSymbol(name, linked), name
+}
+
+func (s *c05gSchema) addPath(fam int, child bool, rel string, i int) string {
+	if child {
+		rel = c05gChildPath + "/" + rel
+	}
+	if s.byPath[fam] == nil {
+		s.byPath[fam] = map[string]int{}
+		s.prefix[fam] = map[string]bool{}
+	}
+	s.byPath[fam][rel] = i
+	seg := strings.Split(rel, "/")
+	for n := 1; n < len(seg); n++ {
+		s.prefix[fam][strings.Join(seg[:n], "/")] = true
+	}
+	return rel
 }
 
 // field: the name of collection i's set symbol on store x (-1 side: not one of its stores)
@@ -173,6 +209,11 @@ func c05gBuild(spec string) *c05gSchema {
 	s.stores[1].GrantSymbols(s.stores[3])
 	if spec != "-" && spec != "" {
 		for i, cs := range strings.Split(spec, ",") {
+			variants := "00"
+			if dot := strings.Index(cs, "."); dot >= 0 {
+				variants = cs[dot+1:] + "00"
+				cs = cs[:dot]
+			}
 			c := &c05gColl{kind: cs[0]}
 			next := func(x int) string {
 				if s.byName[x] == nil {
@@ -194,8 +235,9 @@ func c05gBuild(spec string) *c05gSchema {
 				}
 				sa, sb := s.stores[c.stores[0]], s.stores[c.stores[1]]
 				c.names = [2]string{next(c.stores[0]), next(c.stores[1])}
-				symA := sa.AddFkSetSymbol(c.names[0], sb)
-				symB := sb.AddFkSetSymbol(c.names[1], sa)
+				symA, relA := c05gSymbol(sa, sb, c.names[0], variants[0])
+				symB, relB := c05gSymbol(sb, sa, c.names[1], variants[1])
+				c.paths = [2]string{s.addPath(0, c.child[0], relA, i), s.addPath(1, c.child[1], relB, i)}
 				if c.kind == 'p' {
 					c.plain[0] = sa.AddLinkCollection(symA, symB)
 					c.plain[1] = sb.AddLinkCollection(symB, symA)
@@ -216,7 +258,9 @@ func c05gBuild(spec string) *c05gSchema {
 				st := s.stores[idx]
 				n := next(idx)
 				c.names = [2]string{n, n}
-				sym := st.AddFkSetSymbol(n, st)
+				sym, rel := c05gSymbol(st, st, n, variants[0])
+				rp := s.addPath(c.fam, c.child[0], rel, i)
+				c.paths = [2]string{rp, rp}
 				c.plain[0] = st.AddLinkCollection(sym, sym)
 				c.plain[1] = c.plain[0]
 			default:
@@ -406,72 +450,66 @@ func c05gFam(typ string) int {
 	return -1
 }
 
-// coll returns the collection whose field bucket `name` is, inside an entity bucket of family fam
-// (child = inside the child store's sub-bucket), or nil
-func (v *c05gVisitor) coll(fam int, child bool, name string) (int, *c05gColl) {
-	x := fam
-	if child {
-		x += 2
+// entityRel splits a Traverse path (plus key) below an entity bucket: family, id, path inside the
+// root entity bucket; ok = false when the path is not below `u/<type>/<id>`
+func c05gEntityRel(p []string) (fam int, id string, rel string, ok bool) {
+	if len(p) < 4 || p[1] != c05Root || c05gFam(p[2]) < 0 {
+		return 0, "", "", false
 	}
-	if i, ok := v.s.byName[x][name]; ok {
-		return i, v.s.colls[i]
-	}
-	return -1, nil
+	return c05gFam(p[2]), p[3], strings.Join(p[4:], "/"), true
 }
 
 func (v *c05gVisitor) VisitBucket(path string, key []byte, _ *bbolt.Bucket) bool {
-	p := strings.Split(path, "/") // "", "u", type, id, (ext,) field
 	k := string(key)
+	p := append(strings.Split(path, "/"), k) // "", "u", type, id, path inside the entity bucket...
 	switch {
-	case len(p) == 1 && k == c05Root:
-	case len(p) == 2 && p[1] == c05Root && c05gFam(k) >= 0:
-	case len(p) == 3 && p[1] == c05Root && c05gFam(p[2]) >= 0:
-		v.ent(c05gFam(p[2]), k)
-	case len(p) == 4 && p[1] == c05Root && c05gFam(p[2]) >= 0 && k == c05gChildPath:
-		v.ent(c05gFam(p[2]), p[3]).child = true
-	case len(p) == 4 && p[1] == c05Root && c05gFam(p[2]) >= 0:
-		if _, c := v.coll(c05gFam(p[2]), false, k); c == nil {
-			v.extra = append(v.extra, "bucket:"+path+"/"+toWire(k))
-		}
-	case len(p) == 5 && p[1] == c05Root && c05gFam(p[2]) >= 0 && p[4] == c05gChildPath:
-		if _, c := v.coll(c05gFam(p[2]), true, k); c == nil {
-			v.extra = append(v.extra, "bucket:"+path+"/"+toWire(k))
-		}
+	case len(p) == 2 && k == c05Root:
+	case len(p) == 3 && p[1] == c05Root && c05gFam(k) >= 0:
 	default:
-		v.extra = append(v.extra, "bucket:"+path+"/"+toWire(k))
+		fam, id, rel, ok := c05gEntityRel(p)
+		switch {
+		case !ok:
+			v.extra = append(v.extra, "bucket:"+path+"/"+toWire(k))
+		case rel == "":
+			v.ent(fam, id)
+		case rel == c05gChildPath:
+			v.ent(fam, id).child = true
+		default:
+			_, isField := v.s.byPath[fam][rel]
+			if !isField && !v.s.prefix[fam][rel] {
+				v.extra = append(v.extra, "bucket:"+path+"/"+toWire(k))
+			}
+		}
 	}
 	return true
 }
 
 func (v *c05gVisitor) VisitKeyValue(path string, key, value []byte) bool {
-	p := strings.Split(path, "/")
-	var c *c05gColl
-	i := -1
-	fam := -1
-	if len(p) >= 5 && p[1] == c05Root {
-		fam = c05gFam(p[2])
-	}
-	switch {
-	case fam >= 0 && len(p) == 5:
-		i, c = v.coll(fam, false, p[4])
-	case fam >= 0 && len(p) == 6 && p[4] == c05gChildPath:
-		i, c = v.coll(fam, true, p[5])
-	}
-	if c != nil {
-		en := v.ent(fam, p[3])
-		t, k := boltz.GetTypeAndValue(key)
-		if t == boltz.TypeString && c.kind != 'r' && len(value) == 0 {
-			en.fields[i] = append(en.fields[i], toWire(string(k)))
-			return true
-		}
-		if t == boltz.TypeString && c.kind == 'r' && len(value) == 5 && boltz.FieldType(value[0]) == boltz.TypeInt32 {
-			n := int32(binary.LittleEndian.Uint32(value[1:]))
-			en.fields[i] = append(en.fields[i], toWire(string(k))+":"+strconv.FormatInt(int64(n), 10))
-			return true
+	if fam, id, rel, ok := c05gEntityRel(strings.Split(path, "/")); ok {
+		if i, isField := v.s.byPath[fam][rel]; isField {
+			c := v.s.colls[i]
+			en := v.ent(fam, id)
+			t, k := boltz.GetTypeAndValue(key)
+			if t == boltz.TypeString && c.kind != 'r' && len(value) == 0 {
+				en.fields[i] = append(en.fields[i], toWire(string(k)))
+				return true
+			}
+			if t == boltz.TypeString && c.kind == 'r' && len(value) == 5 && boltz.FieldType(value[0]) == boltz.TypeInt32 {
+				n := int32(binary.LittleEndian.Uint32(value[1:]))
+				en.fields[i] = append(en.fields[i], toWire(string(k))+":"+strconv.FormatInt(int64(n), 10))
+				return true
+			}
 		}
 	}
 	v.extra = append(v.extra, "kv:"+path+"/"+toWire(string(key))+"="+toWire(string(value)))
 	return true
+}
+
+func c05gPathSide(c *c05gColl, fam int) int {
+	if c.kind == 's' {
+		return 0
+	}
+	return fam
 }
 
 func (s *c05gSchema) dump(tx *bbolt.Tx) string {
@@ -492,7 +530,8 @@ func (s *c05gSchema) dump(tx *bbolt.Tx) string {
 			}
 			for i := range s.colls {
 				if len(en.fields[i]) > 0 {
-					b.WriteString("^" + strconv.Itoa(i) + "=" + strings.Join(en.fields[i], ","))
+					// the real bucket path inside the entity bucket (a collection has one end per family)
+					b.WriteString("^" + s.colls[i].paths[c05gPathSide(s.colls[i], fam)] + "=" + strings.Join(en.fields[i], ","))
 				}
 			}
 			b.WriteString(";")
@@ -594,10 +633,11 @@ func c05gMultisets(n int) [][]string {
 // schema, flag set and store) and re-created.
 func (g *c05Gen_) deleteStream(schemas [][]string, flagSets func(sc []string) []string) {
 	ida, idb := toWire("a"), toWire("ab")
-	for _, sc := range schemas {
-		for _, flags := range flagSets(sc) {
-			spec := strings.Join(sc, ",") + flags
+	for _, sc0 := range schemas {
+		for _, flags := range flagSets(sc0) {
 			for _, x := range []string{"A", "B", "a", "b"} {
+				sc := g.withNaming(sc0)
+				spec := strings.Join(sc, ",") + flags
 				rootMode := g.r.chance(1, 2)
 				if flags != "" {
 					rootMode = g.r.chance(3, 4)
@@ -654,7 +694,48 @@ func (g *c05Gen_) deleteStream(schemas [][]string, flagSets func(sc []string) []
 	}
 }
 
+// withNaming draws the naming variant of every collection end: half of the collections keep the
+// plain set symbols, the others get another key and / or a path prefix on either end
+func (g *c05Gen_) withNaming(sc []string) []string {
+	res := make([]string, len(sc))
+	for i, cs := range sc {
+		res[i] = cs
+		if strings.Contains(cs, ".") || g.r.chance(1, 2) {
+			continue
+		}
+		if cs[0] == 's' {
+			res[i] = cs + "." + strconv.Itoa(g.r.intn(4))
+		} else {
+			res[i] = cs + "." + strconv.Itoa(g.r.intn(4)) + strconv.Itoa(g.r.intn(4))
+		}
+	}
+	return res
+}
+
+// namingStream: every single-collection schema in EVERY naming of its ends (16 per two-store kind,
+// 4 per self kind), through the delete stream
+func (g *c05Gen_) namingStream() {
+	var schemas [][]string
+	for _, k := range c05gKinds {
+		if k[0] == 's' {
+			for v := 0; v < 4; v++ {
+				schemas = append(schemas, []string{k + "." + strconv.Itoa(v)})
+			}
+			continue
+		}
+		for va := 0; va < 4; va++ {
+			for vb := 0; vb < 4; vb++ {
+				if va+vb > 0 {
+					schemas = append(schemas, []string{k + "." + strconv.Itoa(va) + strconv.Itoa(vb)})
+				}
+			}
+		}
+	}
+	g.deleteStream(schemas, func([]string) []string { return []string{""} })
+}
+
 func (g *c05Gen_) schemaHistory(sc []string) {
+	sc = g.withNaming(sc)
 	r := g.r
 	spec := "-"
 	if len(sc) > 0 {
@@ -806,6 +887,7 @@ func c05SchemaGen(g *c05Gen_, tier string) {
 	if tier == "thorough" {
 		// bounded-exhaustive: every schema of at most 3 collections (454), deleted through each store
 		all := c05gMultisets(3)
+		g.namingStream()
 		g.deleteStream(all, func(sc []string) []string {
 			if len(sc) <= 2 {
 				return []string{"", "@10", "@01", "@11"}
@@ -830,6 +912,7 @@ func c05SchemaGen(g *c05Gen_, tier string) {
 	}
 	// quick: every schema of at most 2 collections (90) through the delete stream, random schemas otherwise
 	small := c05gMultisets(2)
+	g.namingStream()
 	g.deleteStream(small, func([]string) []string { return []string{"", pick(r, []string{"@10", "@01", "@11"})} })
 	for _, sc := range small {
 		g.schemaHistory(sc)
